@@ -188,7 +188,7 @@ def lexQuote (quote : Char) : Nat → List Char → QSt → QSt × List Char
     if x == '\\' then
       let q := { q with stop := q.stop + 1 }
       match cs with
-      | [] => (q.fail 161 startOfChar, [])
+      | [] => ({ q with stop := q.stop - 1 }.fail 161 startOfChar, [])     -- no character follows the backslash
       | y :: cs' =>
         let q := { q with idx := q.idx + 1 }
         let simple (b : Nat) := lexQuote quote fuel cs' { q with bytes := b :: q.bytes }
